@@ -24,8 +24,8 @@ func main() {
 	}
 	log.InitLog(log.ErrorLog)
 	switch os.Args[1] {
-	case "lin-record": // <histories> <goroutines> <ops per goroutine> <maxtx>
-		linRecord(atoi(os.Args[2]), atoi(os.Args[3]), atoi(os.Args[4]), atoi(os.Args[5]))
+	case "lin-record": // <histories> <goroutines> <ops per goroutine> <maxtx> [hot]
+		linRecord(atoi(os.Args[2]), atoi(os.Args[3]), atoi(os.Args[4]), atoi(os.Args[5]), len(os.Args) > 6 && os.Args[6] == "hot")
 	case "seq-run": // <maxtx>; stdin: {"calls":[...]} lines
 		seqRun(atoi(os.Args[2]))
 	case "srv-run": // <mode>; stdin: {"steps":[...]} lines
